@@ -8,6 +8,10 @@ func init() {
 		Fixtures:    []string{"dec"},
 		Run:         runC16,
 		SelfTest: []Mutation{
+			{Name: "fourth vertex of an ASCII facet stored without a bound test", File: "fileformats/stl.go",
+				Old: "\t\t\t} else if vertexIndex == 3 {\n\t\t\t\treturn normal, vertices, errors.New(\"more than three vertices in a facet\")\n\t\t\t}", New: "\t\t\t}", Rule: "DI.COUNTER", Expect: "readASCII"},
+			{Name: "zero-property rows decoded without consuming (defect repaired)", File: "fileformats/ply.go",
+				Old: "\tif len(p.Properties) == 0 {\n", New: "\tif len(p.Properties) < 0 {\n", Rule: "DL.CONSUME", Expect: "PLYReader"},
 			{Name: "the empty-element skip loop forgets to advance", File: "fileformats/ply.go",
 				Old: "\t\tp.curElementRead = 0\n\t\tp.curElement++\n\t}\n\tcurElem", New: "\t\tp.curElementRead = 0\n\t}\n\tcurElem", Rule: "DL", Expect: "PLYReader"},
 			{Name: "readColorPLY tests only EOF (defect F6)", File: "model3d/import.go",
@@ -59,6 +63,8 @@ func runC16(c *Ctx) {
 	c.floor("DE", 1)
 	c.floor("DA", 8)
 	c.floor("DL", 4)
+	s.ruleDICounter("DI.COUNTER")
+	c.floor("DI.COUNTER", 1)
 	s.ruleConsume("DL.CONSUME")
 	c.floor("DL.CONSUME", 3)
 	s.ruleDR("DR")
